@@ -77,6 +77,15 @@ fn main() {
     let u = Unimock::new(c).no_verify_in_drop();
     let _ = u.a1(5);
     emit("crt", "CannotReturnValueMoreThanOnce", "a1", &["6"], "debug", "(_)", l, 0, "", &caught(|| u.a1(6)));
+    // half-open range patterns are named as written
+    let (c, l) = (MsgMock::a1.some_call(matching!(..=5)).returns(1u32), line!());
+    let u = Unimock::new(c).no_verify_in_drop();
+    let _ = u.a1(5);
+    emit("crt_to", "CannotReturnValueMoreThanOnce", "a1", &["4"], "debug", "(..=5)", l, 0, "", &caught(|| u.a1(4)));
+    let (c, l) = (MsgMock::a2.some_call(matching!(3.., "a" | "b")).returns(1u32), line!());
+    let u = Unimock::new(c).no_verify_in_drop();
+    let _ = u.a2(9, "b");
+    emit("crt_from", "CannotReturnValueMoreThanOnce", "a2", &["3", "\"a\""], "debug", "(3.., \"a\" | \"b\")", l, 0, "", &caught(|| u.a2(3, "a")));
     // ---- ExplicitPanic
     let (c, l) = (MsgMock::sl.each_call(matching!([1, ..], _)).panics("custom message"), line!());
     let u = Unimock::new(c).no_verify_in_drop();
@@ -135,5 +144,24 @@ fn main() {
     post("p-cannot-unmock", Unimock::new(MsgMock::a1.each_call(matching!(_)).applies_unmocked()), &|u| { u.a1(1); });
     post("p-order-mismatch", Unimock::new((MsgMock::a2.next_call(matching!(2, "b")).returns(2u32), MsgMock::a1.next_call(matching!(1)).returns(1u32))), &|u| { u.a2(3, "c"); });
     post("p-nomatch-2pats", Unimock::new((MsgMock::a2.each_call(matching!(9, _)).returns(1u32).at_least_times(0), MsgMock::a2.each_call(matching!(_, "q")).returns(1u32).at_least_times(0))), &|u| { u.a2(1, "z"); });
+    // the mock panics inside a destructor that runs while the thread is already unwinding from a user panic; the destructor swallows it
+    {
+        struct CallsOnDrop<'a>(&'a Unimock);
+        impl Drop for CallsOnDrop<'_> {
+            fn drop(&mut self) { let _ = std::panic::catch_unwind(std::panic::AssertUnwindSafe(|| { self.0.a1(9); })); }
+        }
+        struct UserPanic;
+        let u = Unimock::new(MsgMock::a1.each_call(matching!(1)).returns(1u32).at_least_times(0));
+        let uref = &u;
+        let _ = std::panic::catch_unwind(std::panic::AssertUnwindSafe(move || {
+            let _g = CallsOnDrop(uref);
+            std::panic::resume_unwind(Box::new(UserPanic));      // a user panic; `_g` is dropped during the unwind
+        }));
+        // the same failing call once more outside any unwind: verification must then report the error's text twice
+        let text = caught(|| { u.a1(9); });
+        let verdict = caught(move || u.verify());
+        let n = verdict.matches(text.lines().next().unwrap_or("<none>")).count();
+        println!("post\tp-during-unwind\t{}\t{}\t{}", if n >= 2 { "remembered" } else { "forgotten" }, text.lines().next().unwrap_or(""), format!("{} occurrence(s) in: {}", n, verdict.lines().next().unwrap_or("")));
+    }
     post("p-order", Unimock::new((MsgMock::a1.next_call(matching!(1)).returns(1u32), MsgMock::a2.next_call(matching!(2, "b")).returns(2u32))), &|u| { u.a2(2, "b"); });
 }
